@@ -7,8 +7,8 @@ KEEP_PREFIX = 0
 SIZES = {"quick": 3000, "thorough": 60000}
 BATCH = 1500
 SHRINK_BUDGET = 400
-RULE = ("each case = the same traffic twice (phase A with reload ops, `phase B` without; all module state cleared in between, same "
-        "virtual times): 1-4 resources, initial circuit-breaker (error count / error ratio) and flow (throttling, warm-up, reject) "
+RULE = ("each case = the same traffic twice (phase A with reload ops; the op `phase B` clears all module state and runs the recorded "
+        "ops of phase A again without the reloads, at the same virtual times, answering with the list of its decisions): 1-4 resources, initial circuit-breaker (error count / error ratio) and flow (throttling, warm-up, reject) "
         "rule lists, entries with/without error at time steps from {0,1,…,retry timeout, window length}, 1-3 reloads through "
         "LoadRules / LoadRulesOfResource whose edits are add / remove / modify / duplicate / reorder / never-refusing sibling "
         "before or after an unchanged rule; non-trivial = a reload happened while some controller held state (a block or a wait "
@@ -151,8 +151,7 @@ def gen_case(rng, cid):
                 A.append(f"t {now}")
             x = hot if rng.random() < 0.7 else rng.randint(1, nres)
             A.append(f"e {x} {1 if rng.random() < perr else 0}")
-    B = [o for o in A if ".reload" not in o]
-    return Case(cid, A + ["phase B"] + B, tags=(f"nres={nres}", "+".join(mods), f"reloads={len(reload_at)}"))
+    return Case(cid, A + ["phase B"], tags=(f"nres={nres}", "+".join(mods), f"reloads={len(reload_at)}"))
 
 
 def gen_steal(rng, cid):
@@ -171,8 +170,7 @@ def gen_steal(rng, cid):
     for _ in range(rng.randint(1, 5)):
         now += rng.choice([0, 1, 100, 1000, 3000])
         A += [f"t {now}", f"e 1 {rng.choice([0, 1])}"]
-    B = [o for o in A if ".reload" not in o]
-    return Case(cid, A + ["phase B"] + B, tags=("steal-slice",))
+    return Case(cid, A + ["phase B"], tags=("steal-slice",))
 
 
 def gen(ctx, n):
@@ -205,7 +203,7 @@ def densify(ops, rng):
         A.append(o)
         if rng.random() < 0.4 and not o.startswith("t "):
             A.append(f"e {rng.randint(1, 4)} {rng.choice([0, 0, 1])}")
-    return A + ["phase B"] + [o for o in A if ".reload" not in o]
+    return A + ["phase B"]
 
 
 def nontrivial(case, impl):
